@@ -477,8 +477,15 @@ def dieRangesLoop (u : UnitCtx) (secs : Sections) : Attrs → DieAcc → Out (Di
     | none => dieRangesLoop u secs rest acc
   | _ :: rest, acc => dieRangesLoop u secs rest acc
 
+/-- the filter of `die_ranges` on its single range: `range.filter(|r| r.begin < min_tombstone &&
+r.begin < r.end)` — tombstone, empty and inverted ranges are skipped as in `convert_raw` -/
+def keepSingle (s : Nat) : Option (Nat × Nat) → Option (Nat × Nat)
+  | some (b, e) => if b < minTombstone s ∧ b < e then some (b, e) else none
+  | none => none
+
 /-- `Dwarf::die_ranges` (and `Dwarf::unit_ranges` on the root DIE's attributes). The single
-`low_pc..high_pc` range is returned as it is: NOT filtered for emptiness or tombstones. -/
+`low_pc..high_pc` range is computed (checked add for a constant `DW_AT_high_pc`: the overflow error
+comes first) and then filtered like a range-list entry. -/
 def dieRangesCore (u : UnitCtx) (secs : Sections) (attrs : Attrs) : Out RangesResult := do
   match ← dieRangesLoop u secs attrs {} with
   | .inr evs => pure (.list evs)
@@ -489,8 +496,8 @@ def dieRangesCore (u : UnitCtx) (secs : Sections) (attrs : Attrs) : Out RangesRe
       match acc.size with
       | some sz =>
         if 2 ^ 64 ≤ b + sz then .err .rAddressOverflow      -- checked_add
-        else pure (.single (some (b, b + sz)))
-      | none => pure (.single (acc.highPc.map fun e => (b, e)))
+        else pure (.single (keepSingle u.cfg.addrSize (some (b, b + sz))))
+      | none => pure (.single (keepSingle u.cfg.addrSize (acc.highPc.map fun e => (b, e))))
 
 /-- everything `RangeIter::next` returns until `Ok(None)` -/
 def RangesResult.events : RangesResult → List (Ev Item)
